@@ -66,6 +66,17 @@ CHECKS["C13"] = dict(
     design="§3 C13",
 )
 
+CHECKS["C18"] = dict(
+    category="exploration",
+    text="String phase: ALL GraphQL names over the reduced alphabet {a,b,A,B,_,1} up to length 6 (quick) / 7 (thorough) plus the reserved-name catalogue (keywords, soft keywords, public pydantic "
+         "BaseModel attributes, Enum-reserved names, method locals) through the real mapping function with the flag sets of each call site x snake on/off, checking the laws (identifier, not keyword, "
+         "not a pydantic attribute, deterministic, idempotent, letters/digits kept in order). Generator phase: every pair the mapping merges (names up to length 3/4 + catalogue) in each of 5 scopes and "
+         "every catalogue name alone in 6 scopes through the real generator: refusal with a CodeGenException or both names usable.",
+    note="Trusted: Python's str.isidentifier/keyword, pydantic. The reduced alphabet stands for the character classes of GraphQL names.",
+    technique="exhaustive enumeration of all strings up to a length bound over a reduced alphabet + exhaustive colliding-pair enumeration through the real generator",
+    design="§3 C18",
+)
+
 PENDING_REASON = "check not built yet in this round (work in progress, see DESIGN.md §6)"
 NOT_APPLICABLE = {}
 
